@@ -250,6 +250,8 @@ impl<'a> tracing_subscriber::fmt::writer::MakeWriter<'a> for RollingFileAppender
 
         // Should we try to roll over the log file?
         if let Some(current_time) = self.state.should_rollover(now) {
+            #[cfg(tracing_verif)]
+            __verif::yield_point(0);
             // Did we get the right to lock the file? If not, another thread
             // did it and we can just make a writer.
             if self.state.advance_date(now, current_time) {
